@@ -80,7 +80,7 @@ template <typename F> static bool map_point(const M4<F>& M, const LD E[3], const
   return true;
 }
 static const LD C_RATIONAL = 12;  // entries with <= 3 roundings (ortho, frustum, pickMatrix): proven bound 3u, x4
-static const LD C_TRIG = 16;      // entries through tan (<= 1 ulp = 2u) plus <= 2 roundings: proven bound 4u, x4
+static const LD C_TRIG = 16;      // entries through tan (2u) + 2 roundings = 4u, or cos/sin (2u each) + 3 roundings = 7u (perspectiveFov)
 
 template <typename F> static void op_ortho2d(const Case& c, Outcome& o) {
   F l = FT<F>::get(c.w[0]), r = FT<F>::get(c.w[1]), b = FT<F>::get(c.w[2]), t = FT<F>::get(c.w[3]); o.cls(0);
